@@ -1,6 +1,8 @@
 package rules
 
 import (
+	"fmt"
+	"go/constant"
 	"go/types"
 	"strings"
 
@@ -36,6 +38,11 @@ func r9ctorLen(c *core.Ctx) {
 			}
 			short := ev.Callee[strings.LastIndexByte(ev.Callee, '.')+1:]
 			if !strings.HasPrefix(short, "Set") {
+				return
+			}
+			if short == "SetDNN" {
+				// the DNN value is not the argument's octets: nasType.DNN.SetDNN writes the APN-style label
+				// coding of TS 23.003 9.1 (length-prefixed labels) and sets Len itself
 				return
 			}
 			for _, a := range ev.Args[1:] {
@@ -102,6 +109,139 @@ func r9ctorLen(c *core.Ctx) {
 		}
 	}
 	c.Floor(R, n, 10)
+	r9handmade(c)
+}
+
+// r9handmade: a constructor that puts a message together by hand (octets it writes itself, not the
+// message's own encoder) has to produce at least the mandatory part of that message: header and
+// every mandatory IE of fixed length. Read from the folded constructor: the octets returned are
+// constants where the header is, the message type selects the message, the message's struct says
+// which IEs are mandatory (non-pointer fields) and how long they are at least.
+func r9handmade(c *core.Ctx) {
+	const R = "R9.ctor.len"
+	sp := c.P.SSAPkg(pNasTP)
+	mp := c.P.Pkg(pNasM)
+	np := c.P.Pkg(pNas)
+	if sp == nil || mp == nil || np == nil {
+		return
+	}
+	byType := map[uint64]string{}
+	for _, nme := range np.Types.Scope().Names() {
+		if k, ok := np.Types.Scope().Lookup(nme).(*types.Const); ok && strings.HasPrefix(nme, "MsgType") {
+			if v, ok := constant.Uint64Val(constant.ToInt(k.Val())); ok {
+				byType[v] = strings.TrimPrefix(nme, "MsgType")
+			}
+		}
+	}
+	minLen := func(msg string) (int, bool) {
+		obj := mp.Types.Scope().Lookup(msg)
+		if obj == nil {
+			return 0, false
+		}
+		st, ok := obj.Type().Underlying().(*types.Struct)
+		if !ok {
+			return 0, false
+		}
+		total := 0
+		for i := 0; i < st.NumFields(); i++ {
+			ft := st.Field(i).Type()
+			if _, isPtr := ft.Underlying().(*types.Pointer); isPtr {
+				continue // optional
+			}
+			fs, ok := ft.Underlying().(*types.Struct)
+			if !ok {
+				return 0, false
+			}
+			for j := 0; j < fs.NumFields(); j++ {
+				if fs.Field(j).Name() == "Iei" {
+					continue // a mandatory IE is written without its identifier (format V / LV / LV-E)
+				}
+				switch u := fs.Field(j).Type().Underlying().(type) {
+				case *types.Basic:
+					switch u.Kind() {
+					case types.Uint8:
+						total++
+					case types.Uint16:
+						total += 2
+					default:
+						return 0, false
+					}
+				case *types.Array:
+					total += int(u.Len())
+				case *types.Slice:
+					// a value of variable length: at least nothing
+				default:
+					return 0, false
+				}
+			}
+		}
+		return total, true
+	}
+	nHand := 0
+	for _, fn := range allFuncsOf(sp) {
+		if fn.Object() == nil || !fn.Object().Exported() || fn.Signature.Recv() != nil || len(fn.Blocks) == 0 || fn.Signature.Results().Len() != 1 {
+			continue
+		}
+		if sl, ok := fn.Signature.Results().At(0).Type().Underlying().(*types.Slice); !ok || !types.Identical(sl.Elem(), types.Typ[types.Uint8]) {
+			continue
+		}
+		// only constructors that never reach the message encoder
+		reach := staticReach(fn)
+		usesEncoder := false
+		for g := range reach {
+			if fnPkgPath(g) == pNas && strings.Contains(g.Name(), "Encode") {
+				usesEncoder = true
+			}
+		}
+		if usesEncoder {
+			continue
+		}
+		ex := core.NewExec()
+		ex.MaxStates = 256
+		outs, err := ex.Run(fn, core.DefaultArgs(fn), nil)
+		if err != nil {
+			continue
+		}
+		for _, o := range outs {
+			if o.Panicked || len(o.Ret) != 1 || o.Ret[0].K != core.ASlice || o.Ret[0].Lo < 0 || o.Ret[0].Len < 3 || o.Ret[0].Len > 64 {
+				continue
+			}
+			cell := func(i int) (uint64, bool) {
+				return o.Mem.Load(fmt.Sprintf("%s[%d]", o.Ret[0].Path, o.Ret[0].Lo+i), types.Typ[types.Uint8]).ConstVal()
+			}
+			epd, ok := cell(0)
+			if !ok {
+				continue
+			}
+			ti := 2
+			if epd == 0x2e {
+				ti = 3
+			} else if epd != 0x7e {
+				continue
+			}
+			if o.Ret[0].Len <= ti {
+				continue
+			}
+			mt, ok := cell(ti)
+			if !ok {
+				continue
+			}
+			msg, known := byType[mt]
+			if !known {
+				continue
+			}
+			want, ok := minLen(msg)
+			if !ok {
+				continue
+			}
+			nHand++
+			key := "nasTestpacket." + fn.Name() + ":hand-made:" + msg
+			c.Check(o.Ret[0].Len >= want, R, key, fn.Pos(), fmt.Sprintf("%d octets written by hand, the mandatory part of %s takes %d", o.Ret[0].Len, msg, want),
+				"%s writes the %s message by hand with %d octets, but its header and mandatory IEs (TS 24.501 8.x, the non-optional fields of nasMessage.%s) take at least %d: a mandatory IE is missing", fn.Name(), msg, o.Ret[0].Len, msg, want)
+			break
+		}
+	}
+	c.Note("R9.ctor.len: %d constructors put a message together without the message encoder", nHand)
 }
 
 var _ *ssa.Function
